@@ -78,6 +78,13 @@ fn find_prio(node: &Option<Box<TreapNode<It>>>, val: u32) -> Option<u32> {
 /// What thread `t` does with `k >= 2` node creations on a treap only it owns.  With `serial` every
 /// operation runs under one harness-wide lock (the reference executions).
 pub fn script(t: u32, k: usize, serial: Option<Arc<Mutex<()>>>) -> (ThreadResult, Kept) {
+    script_rv(t, k, serial, None)
+}
+
+/// `rendezvous = (counter, n)`: after its first node creation the thread waits until all `n` threads have
+/// created theirs (free-running pass only): whatever the library registers per thread at its first node
+/// creation exists for ALL threads before any of them creates its second node.
+pub fn script_rv(t: u32, k: usize, serial: Option<Arc<Mutex<()>>>, rendezvous: Option<(Arc<Mutex<usize>>, usize)>) -> (ThreadResult, Kept) {
     macro_rules! op {
         ($e:expr) => {{
             let _g = serial.as_ref().map(|m| m.lock().unwrap_or_else(|e| e.into_inner()));
@@ -89,6 +96,14 @@ pub fn script(t: u32, k: usize, serial: Option<Arc<Mutex<()>>>) -> (ThreadResult
     for i in 0..(k - 1) as u32 {
         let node = op!(Treap::from_item(It { val: t * 100 + i, size: 1 }));
         prios.push(node.root.as_ref().unwrap().priority);
+        if i == 0 {
+            if let Some((counter, n)) = &rendezvous {
+                *counter.lock().unwrap_or_else(|e| e.into_inner()) += 1;
+                while *counter.lock().unwrap_or_else(|e| e.into_inner()) < *n {
+                    thread::yield_now();
+                }
+            }
+        }
         thread::yield_now();
         tr = op!(Treap::merge(tr, node));
         thread::yield_now();
@@ -134,7 +149,11 @@ pub fn script(t: u32, k: usize, serial: Option<Arc<Mutex<()>>>) -> (ThreadResult
 
 /// `script`, with a panic of the code under test turned into a result
 pub fn script_caught(t: u32, k: usize, serial: Option<Arc<Mutex<()>>>) -> (ThreadResult, Kept) {
-    match std::panic::catch_unwind(std::panic::AssertUnwindSafe(|| script(t, k, serial))) {
+    script_caught_rv(t, k, serial, None)
+}
+
+pub fn script_caught_rv(t: u32, k: usize, serial: Option<Arc<Mutex<()>>>, rendezvous: Option<(Arc<Mutex<usize>>, usize)>) -> (ThreadResult, Kept) {
+    match std::panic::catch_unwind(std::panic::AssertUnwindSafe(|| script_rv(t, k, serial, rendezvous))) {
         Ok(r) => r,
         Err(p) => {
             let msg = p.downcast_ref::<String>().cloned().or_else(|| p.downcast_ref::<&str>().map(|s| s.to_string())).unwrap_or_else(|| "panic".into());
@@ -232,17 +251,23 @@ pub fn run_once(threads: u32, k: usize, serial: bool, cold: bool) -> Outcome {
 
 /// `tall > 0`: every thread runs `tall_script` on a hand-built path of `tall` nodes instead of `script`.
 pub fn run_any(threads: u32, k: usize, serial: bool, cold: bool, tall: usize) -> Outcome {
+    run_full(threads, k, serial, cold, tall, false)
+}
+
+pub fn run_full(threads: u32, k: usize, serial: bool, cold: bool, tall: usize, rendezvous: bool) -> Outcome {
     let lock = if serial { Some(Arc::new(Mutex::new(()))) } else { None };
     let main = if cold {
         0
     } else {
         thread::spawn(|| std::panic::catch_unwind(|| TreapNode::new(It { val: 0, size: 1 }).priority).unwrap_or(u32::MAX)).join().unwrap()
     };
+    let counter = Arc::new(Mutex::new(0usize));
     let hs: Vec<_> = (1..=threads)
         .map(|t| {
             let l = lock.clone();
+            let rv = if rendezvous { Some((counter.clone(), threads as usize)) } else { None };
             // tall treaps recurse as deep as they are tall
-            thread::Builder::new().stack_size(4 << 20).spawn(move || if tall > 0 { tall_caught(t, tall, l) } else { script_caught(t, k, l) }).unwrap()
+            thread::Builder::new().stack_size(4 << 20).spawn(move || if tall > 0 { tall_caught(t, tall, l) } else { script_caught_rv(t, k, l, rv) }).unwrap()
         })
         .collect();
     let mut results: Vec<(ThreadResult, Kept)> = hs.into_iter().map(|h| h.join().unwrap()).collect();
